@@ -422,6 +422,27 @@ func (g *gen) setup() {
 		g.addCol(genCol{"ks", "string", ""})
 		g.addCol(genCol{"kn", "int32", ""})
 	}
+	// filter profile: an enum column that only every other row holds (a filter that forgets the presence list is
+	// caught by the rows without a value sitting next to rows with the same interned value)
+	if g.p.name == "C04" {
+		g.addCol(genCol{"fe", "enum", ""})
+		g.addCol(genCol{"fn", "int16", ""})
+		g.nTxn++
+		tid := fmt.Sprintf("e%d", g.nTxn)
+		g.emit("p begin " + tid)
+		for i := 0; i < 10; i++ {
+			acts := fmt.Sprintf("set:fn:%04x", uint16(i*3))
+			if i%2 == 0 {
+				acts += " set:fe:" + hexOf([]byte([]string{"red", "green"}[i/2%2]))
+			}
+			out := g.emit(fmt.Sprintf("p %s insert %s", tid, acts))
+			if off, ok := parseOff(out); ok {
+				g.live[off] = true
+			}
+		}
+		g.emit("p commit " + tid)
+		g.feat("sparse-enum-column")
+	}
 	// merge-heavy profile: one column per merge family whose result aliases / resizes / folds
 	if g.p.name == "C09" {
 		g.addCol(genCol{"st", "string", "tail"})
@@ -1115,6 +1136,14 @@ func (g *gen) filter() string {
 			return "with:" + g.names(1)
 		}
 		c := strs[r.Intn(len(strs))]
+		for _, x := range strs {
+			if x.name == "fe" && r.Intn(2) == 0 {
+				c = x // the filter profile's half-filled enum column
+			}
+		}
+		if c.name == "fe" {
+			return fmt.Sprintf("str:%s:%s", c.name, []string{"eq" + hexOf([]byte("red")), "pfx" + hexOf([]byte("r")), "pfx" + hexOf([]byte("g")), "len1", "len4"}[r.Intn(5)])
+		}
 		return fmt.Sprintf("str:%s:%s", c.name, []string{"eq" + hexOf([]byte("a")), "pfx" + hexOf([]byte("a")), "len1", "eq-"}[r.Intn(4)])
 	default:
 		cands := g.colsOf(func(c genCol) bool { return c.kind != "record" })
